@@ -143,12 +143,12 @@ func (v *verifier) VerifyResponses() error {
 
 // ResetRequestVerifications clears all failed request verifications.
 func (v *verifier) ResetRequestVerifications() {
-	v.reqerr = martian.NewMultiError()
+	v.reqerr.Reset()
 }
 
 // ResetResponseVerifications clears all failed response verifications.
 func (v *verifier) ResetResponseVerifications() {
-	v.reserr = martian.NewMultiError()
+	v.reserr.Reset()
 }
 
 // verifierFromJSON builds a header.Verifier from JSON.
